@@ -5,8 +5,8 @@
    The deflate codec (zlib compressobj / ZLibDecompressor) is a parameter of the theorems: types Cc, Cx, functions
    cinit / comp / decomp and a pairing relation Rsync with the four laws below as premises; `toy_*` instantiates
    them (C11_toy_codec_laws), real zlib is sampled against the same laws by harness/c11.py. *)
-From AV Require Import Lib.Base Lib.Utf8Valid Generated.WsGen Generated.WsCodecGen Model.Ws Model.WsCodec
-  Proofs.WsSeg Proofs.WsRefine Proofs.WsCodecBytes Proofs.WsCodecFrame Proofs.WsCodecRT Proofs.WsCodecToy.
+From AV Require Import Lib.Base Lib.Utf8Valid Generated.WsGen Generated.WsCodecGen Model.Ws Model.WsCodec Model.WsSend
+  Proofs.WsSeg Proofs.WsRefine Proofs.WsCodecBytes Proofs.WsCodecFrame Proofs.WsCodecRT Proofs.WsCodecToy Proofs.WsSendInv.
 Open Scope N_scope.
 
 (* ---- 1. masking and length encoding (all payloads, all sizes) ------------------------------------------ *)
@@ -176,3 +176,60 @@ Example C11_roundtrip_partial_nonvacuous :
      = Some [MBinary [1; 2; 3]; MText [104; 105]; MPing []; MText [104; 105]; MClose 1000 [98; 121; 101]; MPong [7]].
 Proof. vm_compute. repeat split. Qed.
 Print Assumptions C11_roundtrip_partial_nonvacuous.
+
+(* ---- 4. concurrent senders, cancellations: the lock / shield discipline (Model/WsSend.v) -----------------------
+   Whatever the interleaving of sender tasks, executor completions and cancellations: if every compress runs under
+   _send_lock and is followed by its frame write before the lock is released (the traces the system accepts — the
+   harness validates that the real writer only produces such traces), then the transport carries exactly what the
+   SEQUENTIAL writer produces for the operations in wire order, with the same compressor state: wire order = compress
+   order, no context is advanced without its frame being sent. *)
+Theorem C11_wire_order_is_compress_order :
+  forall (Cc : Type) (cinit : N -> Cc) (comp : bool -> Cc -> bytes -> bytes * Cc) (wc : wcfg)
+         (evs : list cev) (st : cstate Cc),
+    crun Cc cinit comp wc (cinit_state Cc) evs = Some st ->
+    (forall t o w n, c_lock st <> Some (t, HComp o w n)) ->
+    let r := wrun Cc cinit comp wc (wstate0 Cc) (map fst (c_order st)) in
+    wo_wire r = c_wire st /\ wo_sent r = c_order st /\ wo_state r = c_w st.
+Proof. exact sequentially_consistent. Qed.
+Print Assumptions C11_wire_order_is_compress_order.
+
+(* hence the peer reads the concurrent senders' messages back in wire order (same provisos as C11_roundtrip_partial) *)
+Theorem C11_concurrent_roundtrip_partial :
+  forall (Cc : Type) (cinit : N -> Cc) (comp : bool -> Cc -> bytes -> bytes * Cc)
+         (Cx : Type) (decomp : Cx -> bytes -> N -> dres Cx) (Rsync : Cc -> Cx -> Prop),
+    (forall ff cc m z cc', comp ff cc m = (z, cc') -> exists z0, z = z0 ++ DEFLATE_TRAILING) ->
+    (forall w d, Rsync (cinit w) d) ->
+    (forall ff cc d m z cc' cap, Rsync cc d -> comp ff cc m = (z, cc') -> (cap = 0 \/ lenN m < cap) ->
+       exists d', decomp d z cap = DOk m d' /\ Rsync cc' d') ->
+    (forall cc m z cc' d, comp true cc m = (z, cc') -> Rsync cc' d) ->
+    forall (wc : wcfg) (max_msg_size : N) (decode_text : bool) (evs : list cev) (st : cstate Cc)
+           (segs : list bytes) (cx0 : Cx),
+      let c := peer_cfg wc max_msg_size decode_text in
+      crun Cc cinit comp wc (cinit_state Cc) evs = Some st ->
+      (forall t o w n, c_lock st <> Some (t, HComp o w n)) ->
+      forallb (op_wf c) (map fst (c_order st)) = true ->
+      safe_overrides wc (map fst (c_order st)) = true ->
+      all_fit c (c_order st) = true ->
+      concat segs = c_wire st ->
+      exists msgs, expect_all (c_order st) = Some msgs
+        /\ fst (feed_all Cx decomp c (Live (init_state Cx cx0)) segs) = msgs
+        /\ rd_status (snd (feed_all Cx decomp c (Live (init_state Cx cx0)) segs)) = SPending.
+Proof. exact concurrent_roundtrip. Qed.
+Print Assumptions C11_concurrent_roundtrip_partial.
+
+(* accepted: task 1 compresses in the executor while a ping is written and task 2 waits; rejected: compressing
+   without the lock, taking a held lock, releasing between compress and write *)
+Example C11_lock_discipline_examples :
+  let wc := mkw false 15 false in
+  let a := Send OP_BINARY [1; 2] 0 0 in
+  let b := Send OP_BINARY [3] 0 0 in
+  let ping := Send OP_PING [] 0 0 in
+  (exists st, crun toyc toy_cinit toy_comp wc (cinit_state toyc)
+                [EAcq 1; EComp 1 a; EPlain ping; EWrite 1; ERel 1; EAcq 2; EComp 2 b; EWrite 2; ERel 2] = Some st
+              /\ map fst (c_order st) = [ping; a; b] /\ c_lock st = None)
+  /\ crun toyc toy_cinit toy_comp wc (cinit_state toyc) [EComp 1 a] = None
+  /\ crun toyc toy_cinit toy_comp wc (cinit_state toyc) [EAcq 1; EAcq 2] = None
+  /\ crun toyc toy_cinit toy_comp wc (cinit_state toyc) [EAcq 1; EComp 1 a; ERel 1] = None
+  /\ crun toyc toy_cinit toy_comp wc (cinit_state toyc) [EAcq 1; EComp 2 b] = None.
+Proof. cbv zeta. split; [eexists; vm_compute; repeat split|vm_compute; repeat split]. Qed.
+Print Assumptions C11_lock_discipline_examples.
